@@ -127,6 +127,30 @@ CLAIMED = {
              "(2 frozen constants); media types are classified only on get_content_type's result while the raw key is what is "
              "emitted; tags keep document order and tags[:1] applies iff generate_all_tags is off. Not decided: two-run equalities.",
         ref="DESIGN.md §4 C16"),
+    "C02": dict(
+        technique="writer/reader agreement over the template emission sites (template interpreter), sibling rule over the 16 property kinds and their templates, template-structure rules for additional properties and dict freshness",
+        text="Only structural clauses that are necessary for the round trip; the behaviour (equality of run-time values) is NOT "
+             "decided. Decided: to_dict writers and the from_dict reader use the same wire-key expression in a string context over "
+             "the same property domain; every kind whose Python type differs from its JSON type defines both construct and "
+             "transform and converts; containers delegate both directions; additional properties merged first and the remainder "
+             "kept; field_dict is a fresh dict; absence recognised by isinstance only; inherited property objects not mutated.",
+        ref="DESIGN.md §4 C02"),
+    "C03": dict(
+        technique="template emission contexts (wire names in string context), truth tables over Jinja guards with integer-modelled collection lengths (definite assignment), table comparisons (BodyType/httpx keywords), sibling rule for header conversion, skeleton token-stream parity of sync/async",
+        text="Structural clauses; the bytes sent are NOT decided. Decided: wire names are keys inside string literals and python "
+             "names the values; placeholders rewritten and formatted over one collection; every use of headers/cookies/params is "
+             "emitted only where its definition is (9 uses, integer-modelled guards); BodyType = body_to_kwarg branches = httpx "
+             "keywords; Content-Type is the document's own key; optional arguments guarded; every non-str kind allowed in headers "
+             "converts (8 kinds); sync/async equal modulo async/await; security wiring; parameter identity = (name, location).",
+        ref="DESIGN.md §4 C03"),
+    "C04": dict(
+        technique="template-structure rules (unconditional tail, per-response dispatch), table extraction from _source_by_content_type compared with the oracle in the property statement, truth table on the union guard, try/handler containment",
+        text="Structural clauses: one status test per parsed response and every branch returns; the raise-or-None tail is emitted "
+             "unconditionally; the media-type table equals the one in the property statement and each source pairs accessor with "
+             "type; construct-or-cast selection; a union member's bare TypeError implies last-and-nothing-can-follow (truth table); "
+             "_build_response forwards all four fields; variants' .parsed; status parsing contained; reference resolution rebinds "
+             "only `data`. Not decided: decoding of values.",
+        ref="DESIGN.md §4 C04"),
 }
 
 NOT_APPLICABLE = {
